@@ -6,7 +6,7 @@ from concurrent.futures import ThreadPoolExecutor
 from vlib import *
 
 STD_FORKS = ["Frontier", "Homestead", "Tangerine", "Spurious", "Byzantium", "Constantinople", "Petersburg", "Istanbul", "Berlin", "London", "Merge", "Shanghai"]
-OWN = {"C01": {"result"}, "C02": {"gas"}, "C18": {"stream", "tracerout"}, "C07": {"treeshape"}, "C08": {"treecontent", "treeshape"}, "C05": {"jpseq"}}
+OWN = {"C01": {"result"}, "C02": {"gas"}, "C18": {"stream", "tracerout"}, "C07": {"treeshape"}, "C08": {"treecontent", "treeshape"}, "C05": {"jpseq"}, "C13": {"baljournal"}}
 
 
 def plan(prop, tier):
@@ -17,7 +17,7 @@ def plan(prop, tier):
         return dict(n=250 if q else 2500, matrix=30 if q else 3, sweep=12 if q else 60, tracers_every=0, forks=STD_FORKS, limit=3000, batches=8 if q else 16)
     if prop == "C05":
         return dict(n=400 if q else 5000, matrix=300 if q else 20, sweep=0, tracers_every=0, forks=STD_FORKS + ["Cancun"], limit=3000, batches=8 if q else 16, jp_every=1)
-    if prop in ("C07", "C08"):
+    if prop in ("C07", "C08", "C13"):
         return dict(n=400 if q else 5000, matrix=300 if q else 20, sweep=0, tracers_every=0, forks=STD_FORKS + ["Cancun"], limit=3000, batches=8 if q else 16)
     return dict(n=300 if q else 3000, matrix=60 if q else 8, sweep=2, tracers_every=2, forks=STD_FORKS, limit=3000, batches=8 if q else 16)
 
@@ -100,9 +100,11 @@ def run(v, prop, tier):
     v.cov["samples"] = (v.cov["samples"] + (rep.get("sample") or []))[:4]
     v.notes["trace_validation"] = {"plan": pl, "recorder": {k: rep[k] for k in ("programs", "runs", "events", "byName", "byFork", "byEntry", "sweepRuns", "distinctOpcodesExecuted")},
                                    "rule_coverage": cnt, "mismatches_by_component": tot}
-    if prop in ("C05", "C07", "C08"):
+    if prop in ("C05", "C07", "C08", "C13"):
         if prop == "C05" and cnt.get("firings", 0) == 0:
             raise InfraError("rule coverage: no join-point firing was validated")
+        if prop == "C13" and (cnt.get("xfers", 0) == 0 or cnt.get("baljournals", 0) == 0):
+            raise InfraError("rule coverage: no balance journal was validated")
         return
     v.cov["rule"] = ("seeded generators (structured stack-balanced programs over the whole standard opcode set with boundary operands, calls of all kinds among 3 contracts, "
                      "precompiles 1-9, CREATE/CREATE2, SELFDESTRUCT, LOGs; byte-level mutations; raw bytes; opcode x operand-class matrix; gas-limit sweep around every "
